@@ -182,7 +182,10 @@ class FixedArray2D
             end = e;
             slicelength = sl;
         } else if (PyInt_Check(index)) {
-            size_t i = canonical_index(PyInt_AsSsize_t(index), length);
+            Py_ssize_t idx = PyInt_AsSsize_t(index);
+            if (idx == -1 && PyErr_Occurred())
+                boost::python::throw_error_already_set();
+            size_t i = canonical_index(idx, length);
             start = i; end = i+1; step = 1; slicelength = 1;
         } else {
             PyErr_SetString(PyExc_TypeError, "Object is not a slice");
